@@ -155,16 +155,26 @@ def extender_walk(core_genes_first, core_genes_last, core_loc, genes_sorted, loc
     if wrap:
         backwards += list(reversed(order[idx + 1:]))
         forwards += list(order[:idx])
-    for sequence, prev in ((backwards, core_genes_first), (forwards, core_genes_last)):
+    # the distance is measured to everything gathered so far (the hull of core plus admitted genes): an earlier
+    # admitted gene can reach further than the last one. As in the code, the backward walk comes first and the
+    # forward walk continues from what it gathered.
+    def hull(ivs):
+        if not wrap:
+            return [(min(s for s, _ in ivs), max(e for _, e in ivs))]
+        start, arc_len = ring.shortest_cover(ivs, length)
+        return ring.normalise(ring.arc_to_intervals(start, arc_len, length))
+    gathered = hull(list(ring.span(core_loc, wrap)))
+    for sequence in (backwards, forwards):
         for g in sequence:
-            if in_core(g):
+            gene_ivs = list(ring.span(locs[g], wrap))
+            if ring.covers(gathered, gene_ivs):
                 continue
-            if ring.distance(locs[g], locs[prev], wrap) > cutoff:
+            gap = ring.ring_gap_intervals(gathered, gene_ivs, wrap) if wrap else ring.line_gap_intervals(gathered, gene_ivs)
+            if gap > cutoff:
                 break
             if satisfied(g):
-                if g not in admitted:
-                    admitted.append(g)
-                prev = g
+                admitted.append(g)
+                gathered = hull(gathered + gene_ivs)
     return admitted
 
 
